@@ -103,7 +103,8 @@ pub struct Inv {
     pub cmd: Cmd,
     /// cwd relative to the sandbox root; the project lives in `proj/`
     pub cwd: String,
-    /// all prompts of this invocation get this answer ("y" or "n")
+    /// the answers scripted for the prompts of this invocation: "y" or "n" for all of them, or a
+    /// pattern such as "nyy" that is repeated over the questions in the order asked
     pub answer: String,
     pub detrand: u64,
     pub dirseed: u64,
@@ -431,7 +432,13 @@ pub fn gen_scn(d: &Data, r: &mut Rng, faulty: bool, bad: Option<&str>) -> Scn {
         invs.push(Inv {
             cmd,
             cwd,
-            answer: if r.chance(1, 2) { "y".into() } else { "n".into() },
+            answer: match fault_seed % 7 {
+                // the questions of one invocation need not all get the same answer
+                0 => "ny".into(),
+                1 => "yn".into(),
+                2 => "nyy".into(),
+                _ => if r.chance(1, 2) { "y".into() } else { "n".into() },
+            },
             detrand: r.next_u64() | 1,
             dirseed: if faulty || r.chance(1, 2) { r.next_u64() | 1 } else { 0 },
             class,
